@@ -7,7 +7,9 @@ import glob, json, os, re, shutil, sys
 GROUPS = {'s1': ['C01', 'C02', 'C03'], 's2': ['C04', 'C05', 'C12'], 's3': ['C06', 'C07', 'C40'], 's4': ['C08', 'C10', 'C14'],
           's5': ['C13', 'C15', 'C16'], 's6': ['C17', 'C46', 'C42'], 's7': ['C22', 'C28', 'C44'], 's8': ['C29', 'C31', 'C43'],
           's9': ['C33', 'C34', 'C39'], 's10': ['C35', 'C24', 'C20'], 's11': ['C26', 'C27', 'C18'], 's12': ['C11', 'C09', 'C41'],
-          's13': ['C19', 'C23', 'C21'], 's14': ['C30', 'C45', 'C32'], 's15': ['C36', 'C38']}
+          's13': ['C19', 'C23', 'C21'], 's14': ['C30', 'C45', 'C32'], 's15': ['C36', 'C38'],
+          # second round (fresh agents, same procedure): kept as <ID>-r2
+          't1': ['C16', 'C19'], 't2': ['C25', 'C03'], 't3': ['C32', 'C38'], 't4': ['C09', 'C10'], 't5': ['C15', 'C22']}
 FLAKY = ('context_tests', 'performance_tests', 'mandelbrot', 'test_large_kleene_no_hang', 'test_process_1000_events', 'chaos',
          'test_two_context', 'test_three_context', 'test_single_context', 'test_session_window', 'test_context_', 'test_parallel_dispatch', 'test_expanded_contexts')
 
@@ -18,7 +20,7 @@ for lg in logs:
     cur = []
     for line in open(lg, errors='replace'):
         line = line.rstrip()
-        m = re.match(r'RESULT (C\d+) exit=(\d+)', line)
+        m = re.match(r'RESULT (C\d+(?:-r2)?) exit=(\d+)', line)
         if m:
             sigs = [re.search(r'signature=(\S+)', l).group(1) for l in cur if 'VIOLATION' in l and 'signature=' in l]
             runs.setdefault(m.group(1), []).append({'log': os.path.basename(lg), 'exit': int(m.group(2)), 'signatures': sigs[:6]})
@@ -33,7 +35,8 @@ rows = []
 for g, ids in GROUPS.items():
     for ID in ids:
         src = '/tmp/seed/%s/seeded/%s' % (g, ID)
-        cj = '/tmp/mut/confirm_%s.json' % ID
+        label = ID if g.startswith('s') else ID + '-r2'
+        cj = '/tmp/mut/confirm_%s.json' % label
         if not os.path.isdir(src):
             continue
         agent_meta = {}
@@ -42,7 +45,7 @@ for g, ids in GROUPS.items():
         except Exception:
             pass
         conf = json.load(open(cj)) if os.path.exists(cj) else None
-        r = [x for x in runs.get(ID, []) if x.get('exit') is not None]
+        r = [x for x in runs.get(label, []) if x.get('exit') is not None]
         first = r[0] if r else None
         last = r[-1] if r else None
         ok_tests = None
@@ -67,9 +70,9 @@ for g, ids in GROUPS.items():
                 det = 'run timed out'
             if first is not last and first['exit'] == 0 and last['exit'] == 1:
                 det = 'caught after strengthening (first run missed)'
-        rows.append((ID, status, det, (last or {}).get('signatures', []), agent_meta.get('needs_to_manifest', agent_meta.get('what_breaks', ''))))
+        rows.append((label, status, det, (last or {}).get('signatures', []), agent_meta.get('needs_to_manifest', agent_meta.get('what_breaks', ''))))
         if confirmed and '--write' in sys.argv:
-            dst = '/verif/seeded/%s' % ID
+            dst = '/verif/seeded/%s' % label
             os.makedirs(dst, exist_ok=True)
             for f in os.listdir(src):
                 p = os.path.join(src, f)
@@ -96,7 +99,7 @@ for g, ids in GROUPS.items():
                 },
                 'detection': {
                     'how': 'registered quick check ./check %s run on a scratch copy of the repository with patch.diff applied' % ID,
-                    'runs': runs.get(ID, []),
+                    'runs': runs.get(label, []),
                     'verdict': det,
                 },
             }
